@@ -126,10 +126,33 @@ def run(module, cfg_text, *, workers=16, simulate=None, depth=None, seed=None, c
     res.cmd = " ".join(cmd)
     out_path = os.path.join(wd, "tlc.out")
     t0 = time.time()
+    res.sim_aborted = False
     try:
         with open(out_path, "w") as out:
-            p = subprocess.run(cmd, cwd=wd, stdout=out, stderr=subprocess.STDOUT, timeout=timeout, env=env)
-        res.returncode = p.returncode
+            if simulate is None:
+                p = subprocess.run(cmd, cwd=wd, stdout=out, stderr=subprocess.STDOUT, timeout=timeout, env=env)
+                res.returncode = p.returncode
+            else:
+                # TLC 1.8's simulator compares whole states when it writes a behaviour to a file; when two `op`
+                # records of one behaviour hold results of different types (a node id here, an exception record
+                # there) that comparison throws, the worker thread dies and TLC waits for it for ever.  The
+                # behaviours written before that are complete and are used; the rest of the sample is forgone.
+                proc = subprocess.Popen(cmd, cwd=wd, stdout=out, stderr=subprocess.STDOUT, env=env)
+                while True:
+                    try:
+                        proc.wait(timeout=5)
+                        break
+                    except subprocess.TimeoutExpired:
+                        if time.time() - t0 > timeout:
+                            proc.kill()
+                            raise MachineryFailure("TLC timed out after %ss: %s" % (timeout, module))
+                        with open(out_path) as chk:
+                            if 'Exception in thread "Thread-' in chk.read():
+                                proc.kill()
+                                proc.wait()
+                                res.sim_aborted = True
+                                break
+                res.returncode = 0 if res.sim_aborted else proc.returncode
     except subprocess.TimeoutExpired:
         raise MachineryFailure("TLC timed out after %ss: %s" % (timeout, module))
     res.wall_s = time.time() - t0
